@@ -824,6 +824,69 @@ def r4(F, R):
     R.floor("C14-R4", 12)
 
 
+def _phase_flag(b):
+    """The remembered phase flag of a backend: the bool field of self that record_sample clears (`self.flag = false`)."""
+    for bi, blk in enumerate(b.blocks):
+        if blk["cleanup"]:
+            continue
+        for st in blk["stmts"]:
+            if st["k"] == "assign" and st["pl"]["l"] == 1 and st["pl"]["p"] and isinstance(st["pl"]["p"][-1], dict) and st["pl"]["p"][-1].get("ty") == "bool":
+                v = b.rvalue_value(st["rv"])
+                if v[0] == "const" and v[2] == "false":
+                    return st["pl"]["p"][-1].get("n")
+    return None
+
+
+def r13(F, R):
+    R.rule("C14-R13", "event counts are attributed to the phase they were recorded in: a backend that remembers the phase in a flag and reports per-dimension "
+                      "(warm-up, sampling) event counts from finalize / inspect makes that pair depend on the flag - the count taken from the live buffers belongs "
+                      "to the warm-up phase as long as the chain has not switched. Otherwise a run that ends in warm-up (num_draws = 0, abort) reports its warm-up "
+                      "events as sampling events and the trace-level finalize trims the warm-up event arrays to length 0")
+    n = 0
+    for rb in F.trait_method_impls("ChainStorage", "record_sample"):
+        flag = _phase_flag(rb)
+        if not flag:
+            continue
+        impl = rb.parent.get("impl")
+        for fn in ("finalize", "inspect"):
+            for b in F.trait_method_impls("ChainStorage", fn):
+                if b.parent.get("impl") != impl:
+                    continue
+                group = [b] + K.all_closures_of(F, b.path)
+                pairs = []        # (body, bb) of every (u64, u64) tuple construction / whole store
+                for x in group:
+                    for bi, blk in enumerate(x.blocks):
+                        if blk["cleanup"]:
+                            continue
+                        for st in blk["stmts"]:
+                            if st["k"] == "assign" and st["rv"]["k"] == "agg" and st["rv"].get("ak") == "tuple" and len(st["rv"]["ops"]) == 2 and \
+                               all((o.get("k") == "const" and "u64" in str(o["const"].get("ty"))) or (o.get("k") in ("copy", "move") and str(o["pl"].get("ty")) == "u64") for o in st["rv"]["ops"]):
+                                pairs.append((x, bi))
+                if not pairs:
+                    continue
+                n += 1
+                site = "%s @%s" % (b.path, b.loc())
+                key = "%s:%s-counts-by-phase" % ((b.parent.get("self_adt") or b.path).split("::")[-1], fn)
+                dep = False
+                for (x, bi) in pairs:
+                    for (a, _s) in x.control_deps_trans(bi):
+                        t = x.blocks[a]["term"]
+                        if t["k"] != "switch" or t.get("discr_ty") != "bool":
+                            continue
+                        sl = x.slice([t["discr"]], control=False)
+                        if flag in sl["fields"]:
+                            dep = True
+                        if x.kind == "closure" and any(str(c.get("place", "")).endswith("." + flag) for c in x.captures) and (sl["upvars"] or sl["args"]):
+                            dep = True
+                if dep:
+                    R.ok("C14-R13", key, site, "the (warm-up, sampling) counts are built under a test of `%s`" % flag)
+                else:
+                    R.bad("C14-R13", key, site, "the (warm-up, sampling) event counts do not depend on the phase flag `%s`: the events of a chain that is still in "
+                          "warm-up are reported as sampling events (and the warm-up event arrays are trimmed to 0 at finalisation)" % flag)
+    if n == 0:
+        R.info("C14-R13", "no backend with a remembered phase flag reports (warm-up, sampling) count pairs in this configuration")
+
+
 def r8(F, R):
     """Phase switch first: a draw is accounted to the phase (warm-up / sampling) that is current after the switch block has run."""
     from .facts import _rvalue_operands
@@ -992,6 +1055,7 @@ def run(F, R, config="all"):
     r8(F, R)
     r9(F, R, P)
     r10(F, R)
+    r13(F, R)
     # a write whose failure is dropped leaves fill values where recorded draws should be, without an error: no unread Result in the backends
     from . import c13
     def _storage_only(sub):
